@@ -1,7 +1,7 @@
 (* Graph.v — fsic.tools.symbols_to_graph (fsic/tools.py:66-86) exactly as coded.  Definitions only.
 
        G = nx.DiGraph()
-       equations = [s.equation for s in symbols if s.equation is not None]
+       equations = [s.equation for s in symbols if s.equation is not None and s.type == Type.ENDOGENOUS]
        for e in equations:
            lhs, rhs = e.split('=', maxsplit=1)                            # first '='; no '=' -> ValueError (unpacking)
            endogenous = [m.group(0) for m in term_re.finditer(lhs)]       # EVERY match: keywords, functions and
@@ -74,10 +74,15 @@ Fixpoint graph_loop (g : graph) (equations : list string) : outcome graph :=
   | e :: rest => match graph_step g e with Ret g' => graph_loop g' rest | Raise x => Raise x end
   end.
 
+(* equations = [s.equation for s in symbols if s.equation is not None and s.type == Type.ENDOGENOUS]   (fix 9d4c57e:
+   verbatim blocks keep their code in the same field but define no terms) *)
 Fixpoint equations_of (symbols : list symbol) : list string :=
   match symbols with
   | [] => []
-  | s :: r => match sequation s with Some e => e :: equations_of r | None => equations_of r end
+  | s :: r => match sequation s, stype s with
+              | Some e, TEndogenous => e :: equations_of r
+              | _, _ => equations_of r
+              end
   end.
 
 Definition symbols_to_graph_M (symbols : list symbol) : outcome graph := graph_loop empty_graph (equations_of symbols).
